@@ -249,6 +249,7 @@ def run_case(scratch: str, case: Dict[str, Any], chooser_factory: Callable[[S.Sc
     if backend_kind != "local":
         from . import mems3
         store = mems3.MemS3(sc.now_ms)
+        store.conflict_code = case.get("s3_conflict", "412")
 
         def factory(tp: str) -> Any:
             return S.instrument_backend(sc, mems3.make_s3_backend(store, "tbl", conditional=(backend_kind == "s3cas")), lock_mode=lock_mode)
